@@ -290,21 +290,42 @@ pub fn run(ctx: &mut Ctx) {
             }
             rep.distinct(&format!("{}|{}", sa, sb), true);
         }
-        // unary minus, both forms
-        let exp = model_neg(a);
-        for (form, src, binds) in [
-            ("variable", "-a".to_string(), vec![("a".to_string(), a.val())]),
-            ("literal", format!("-{}", sa), vec![]),
-        ] {
-            let out = mon::run1(&src, &binds);
-            rep.eval();
-            rep.digest(&out.canon_anyerr());
-            if let Err(why) = judge(&exp, &out) {
-                rep.viol(
-                    &format!("neg|type={}|{}", a.ty(), outcome_class(&exp, &out)),
-                    &format!("{} form: {} with a={}: {}", form, src, canon(&a.val()), why),
-                    json!({"source": src, "a": canon(&a.val())}),
-                );
+        // unary minus, both forms; a run of n signs is n negations, each of which must succeed
+        for n in 1..=4usize {
+            let mut exp = Expect::Exact(a.val());
+            let mut cur = Some(a);
+            for _ in 0..n {
+                exp = match cur {
+                    Some(c) => model_neg(c),
+                    None => Expect::Error,
+                };
+                cur = match &exp {
+                    Expect::Exact(CelValue::Int(i)) => Some(N::I(*i)),
+                    Expect::Exact(CelValue::Float(f)) => Some(N::F(*f)),
+                    _ => None,
+                };
+            }
+            let run: String = "-".repeat(n);
+            let spaced: String = "- ".repeat(n);
+            let nested = format!("{}{}{}", "-(".repeat(n), "a", ")".repeat(n));
+            for (form, src, binds) in [
+                ("variable", format!("{}a", run), vec![("a".to_string(), a.val())]),
+                ("literal", format!("{}{}", run, sa), vec![]),
+                ("variable-spaced", format!("{}a", spaced), vec![("a".to_string(), a.val())]),
+                ("variable-nested", nested, vec![("a".to_string(), a.val())]),
+                ("literal-in-list", format!("[{}{}][0]", run, sa), vec![]),
+            ] {
+                let out = mon::run1(&src, &binds);
+                rep.eval();
+                rep.count(&format!("neg_runs/{}", n));
+                rep.digest(&out.canon_anyerr());
+                if let Err(why) = judge(&exp, &out) {
+                    rep.viol(
+                        &format!("neg|run={}|type={}|{}", n, a.ty(), outcome_class(&exp, &out)),
+                        &format!("{} form: {} with a={}: {}", form, src, canon(&a.val()), why),
+                        json!({"source": src, "a": canon(&a.val())}),
+                    );
+                }
             }
         }
         rep.sample(|| json!({"stage":"grid","a":canon(&a.val()),"partners":g.len(),"ops":OPS}));
@@ -323,6 +344,19 @@ pub fn run(ctx: &mut Ctx) {
     ];
     ctx.stage("non-numeric", ng, false, |idx, _rng, rep| {
         let a = g[idx as usize];
+        if idx == 0 {
+            for (tn, o) in &others {
+                for n in 1..=4usize {
+                    let src = format!("{}a", "-".repeat(n));
+                    let out = mon::run1(&src, &[("a".to_string(), o.clone())]);
+                    rep.eval();
+                    rep.count("neg_non_numeric");
+                    if !out.is_err() && *tn != "duration" {
+                        rep.viol(&format!("neg|run={}|type={}|value", n, tn), &format!("{} with a={} should be an error, got {}", src, canon(o), out.show()), json!({"source": src, "a": canon(o)}));
+                    }
+                }
+            }
+        }
         for (tn, o) in &others {
             for (k, op) in OPS.iter().enumerate() {
                 for flip in [false, true] {
